@@ -402,11 +402,14 @@ class kFlowDecomp(pathmodel.AbstractPathModelDAG):
                     constraint_length = len(subpath)
                     # And the fraction of edges that we need to cover is self.subpath_constraints_coverage
                     coverage_fraction = self.subpath_constraints_coverage
+                    # Coverage is counted in edges here (also when a length attribute is set): every constraint edge counts 1
+                    edge_lengths = {}
                 else:
                     constraint_length = sum(self.G[u][v].get(self.length_attr, 1) for (u,v) in subpath)
                     coverage_fraction = self.subpath_constraints_coverage_length
+                    edge_lengths = {(u,v): self.G[u][v].get(self.length_attr, 1) for (u,v) in subpath}
                 # If the subpath is not covered enough by the greedy decomposition, we return False
-                if gu.max_occurrence(subpath, paths, edge_lengths={(u,v): self.G[u][v].get(self.length_attr, 1) for (u,v) in subpath}) < constraint_length * coverage_fraction:
+                if gu.max_occurrence(subpath, paths, edge_lengths=edge_lengths) < constraint_length * coverage_fraction:
                     return False
         
         # The greedy weights are flow values of the input graph: convert them to the requested weight type,
